@@ -750,7 +750,7 @@ fn max_data_case(local_is_server: bool) {
 // mgr_stream_impl.rs).
 // ============================================================================================================
 
-//@ harness props=C03,C04 tier=thorough level=bounded timeout=1800 bound="streams<=1 (empty container, one insert); stream-count limits fixed to 8"
+//@ harness props=C03,C04 tier=quick level=bounded timeout=900 bound="streams<=1 (empty container, one insert); stream-count limits fixed to 8"
 //@ fn StreamManagerState::insert_stream
 //@ fn AbstractStreamManager::new
 //@ fn InitialStreamLimits::max_data
